@@ -113,19 +113,21 @@ def check_response(iface, schedule, ping_interval=0.05):
     import baize.wsgi as W
     import baize.asgi as A
     v = []
+    SNAP = [(p, dict(e)) for p, e in schedule]       # what was yielded, as it looked before the response ran
+    schedule = [(p, dict(e)) if e is not _SAME else (p, e) for p, e in schedule]
     if iface == "wsgi":
         def gen():
             for pause, ev in schedule:
                 if pause:
                     time.sleep(pause)
-                yield dict(ev)
+                yield ev            # (the caller's own object: the response must not consume it)
         rec = run_wsgi(W.SendEventResponse(gen(), ping_interval=ping_interval), wsgi_environ("GET", "/"))
     else:
         async def agen():
             for pause, ev in schedule:
                 if pause:
                     await asyncio.sleep(pause)
-                yield dict(ev)
+                yield ev
         rec = run_asgi(A.SendEventResponse(agen(), ping_interval=ping_interval), asgi_scope("GET", "/"))
     if rec["exception"] is not None:
         return ["%s SendEventResponse raised %r" % (iface, rec["exception"])]
@@ -136,7 +138,7 @@ def check_response(iface, schedule, ping_interval=0.05):
     except UnicodeDecodeError as e:
         return v + ["stream does not decode: %r" % e]
     got = eventsource_parse(text)
-    want = [expected_event(ev) for _, ev in schedule if "data" in ev]
+    want = [expected_event(ev) for _, ev in SNAP if "data" in ev]
     # retry is a reconnection hint of the block that carries it; id persists (last event id) - compare what the statement
     # names: data, event name, id as set so far, in order
     last = None
@@ -154,7 +156,10 @@ def check_response(iface, schedule, ping_interval=0.05):
     return v
 
 
+_SAME = {"event": "tick", "data": "x"}     # one mapping object yielded several times
+
 SCHEDULES = [
+    [(0, _SAME), (0, _SAME), (0.12, _SAME)],
     [(0, {"data": "one"}), (0, {"data": "two", "id": "2"}), (0, {"data": "three\nlines", "event": "upd"})],
     [(0, {"data": "first"}), (0.16, {"data": "second", "id": "2"}), (0, {"data": "third"}), (0.16, {"data": "fourth", "event": "e"})],
     [(0.16, {"data": "after a quiet start"}), (0.16, {"data": "and another"})],
